@@ -61,13 +61,49 @@ func IDs() []string {
 
 // fn looks up a source function by key and records an unresolved anchor when it is missing.
 func (c *Ctx) fn(rule, key string) *ssa.Function {
-	f := c.M.FuncByKey[key]
+	f := c.lookupFn(key)
 	if f == nil {
 		c.R.Unresolved(rule, "function "+key)
 		return nil
 	}
 	// the body, if the function only hands over to a worker (an entry/worker pair)
 	return trampolineOf(c.M, f)
+}
+
+// lookupFn: the function of that key, or - a method that became a function of the package (or the reverse) keeps its
+// name - the only function of the package that is called so.
+func (c *Ctx) lookupFn(key string) *ssa.Function {
+	f := c.M.FuncByKey[key]
+	if f == nil {
+		// a method that became a function of the package (or the reverse) keeps its name: the only function of the
+		// package that is called so stands for it
+		name := key[strings.LastIndex(key, ".")+1:]
+		pkg := key[:strings.Index(key, ".")]
+		var found []*ssa.Function
+		for _, g := range c.M.Funcs {
+			if g.Parent() == nil && g.Name() == name && strings.HasPrefix(c.M.Key(g), pkg+".") {
+				found = append(found, g)
+			}
+		}
+		if len(found) == 1 {
+			f = found[0]
+		}
+	}
+	return f
+}
+
+// dataMapParam: the parameter of fn that is a map[string]any (the data of an object), nil if there is not exactly one.
+func dataMapParam(fn *ssa.Function) *ssa.Parameter {
+	var out *ssa.Parameter
+	for _, p := range fn.Params {
+		if typeStr(p.Type()) == "map[string]any" || typeStr(p.Type()) == "map[string]interface{}" {
+			if out != nil {
+				return nil
+			}
+			out = p
+		}
+	}
+	return out
 }
 
 func key(parts ...string) string { return strings.Join(parts, " | ") }
